@@ -15,10 +15,10 @@ from pytenet.mpo import MPO
 ID = 'C01'
 LEVEL = 'model_checking'
 RULE = ('class {MPS,MPO} x mode {left,right} x L x d x interior bond profile x every charge layout over {-1,0,1} (deviation-bounded '
-        'for the largest shapes) x boundary charges x value kind {complex,real,int,ones,neg,rankdef,zero,fortran(column-major storage)}; non-trivial = non-zero state '
+        'for the largest shapes) x boundary charges x value kind {complex,real,int,ones,neg,rankdef,zero,fortran(column-major storage),tiny,large,shared(one array object at several sites),near_iso_left/right(isometries times 1+2^-18)}; non-trivial = non-zero state '
         'with some bond carrying >=2 distinct charges or a bond dimension that changes')
 BUDGET = {'quick': 400, 'thorough': 3600}
-KINDS = ['complex', 'real', 'int', 'ones', 'neg', 'rankdef', 'zero', 'fortran', 'tiny', 'large']
+KINDS = ['complex', 'real', 'int', 'ones', 'neg', 'rankdef', 'zero', 'fortran', 'tiny', 'large', 'shared', 'near_iso_left', 'near_iso_right']
 
 
 def _cases(cls, Ls, ds, Ds, alph, max_dev_for):
@@ -147,7 +147,7 @@ def spaces(tier, seed):
             return None if (d + sum(prof)) <= 5 else 3
         def md_mpo(L, d, prof):
             return None if (d + sum(prof)) <= 4 else 2
-        SK = ['complex', 'int', 'neg', 'rankdef', 'fortran', 'tiny']
+        SK = ['complex', 'int', 'neg', 'rankdef', 'fortran', 'tiny', 'shared', 'near_iso_left', 'near_iso_right']
         return [
             Space('mps_sectors', core.chunked(_sector_cases('MPS', [2, 3], [[0, 1], [1, -1], [0, 1, 2]], [1, 2, 3], SK), 400),
                   run_case=run_case, sig=sig,
@@ -171,7 +171,7 @@ def spaces(tier, seed):
         return None if (d + sum(prof)) <= 7 else 4
     def md_t2(L, d, prof):
         return None if (d + sum(prof)) <= 6 else 3
-    SK = ['complex', 'real', 'int', 'neg', 'rankdef', 'tiny']
+    SK = ['complex', 'real', 'int', 'neg', 'rankdef', 'tiny', 'shared', 'near_iso_left', 'near_iso_right']
     return [
         Space('mps_sectors', core.chunked(_sector_cases('MPS', [2, 3, 4], [[0, 1], [1, -1], [0, 1, 2]], [1, 2, 3], SK, extra=()), 400),
               run_case=run_case, sig=sig,
